@@ -401,10 +401,10 @@ class NormalizeMeanToMid(NormalizeCurve):
 
         # The means are computed in floating point: the mean of cells that all equal the extreme value may differ from
         # it in the last bit, which would leave two control points a rounding error apart
-        if numpy.isclose(raw_values[-1], raw_values[-2]):
+        if numpy.isclose(raw_values[-1], raw_values[-2], rtol=1e-9, atol=0):
             del raw_values[-2]
             del normal_values[-2]
-        if numpy.isclose(raw_values[0], raw_values[1]):
+        if numpy.isclose(raw_values[0], raw_values[1], rtol=1e-9, atol=0):
             del raw_values[1]
             del normal_values[1]
 
